@@ -84,42 +84,49 @@ end Life
 
 /-- for goals where the life cycles are constructor terms (after a case split). -/
 macro "life_grind" : tactic => `(tactic| grind [Life.resolvedSigned, Life.res?, Life.removedRes, Life.committed, badSigned,
-  Life.removedRes_eq_some])
+  chanAccepts, Life.removedRes_eq_some, Option.isNone_iff_eq_none, Option.isSome_iff_exists])
 
 /-- for the restart step: no case split, characterisation lemmas instead. -/
 macro "restart_grind" : tactic => `(tactic| grind [Life.resolvedSigned, Life.res?, Life.removedRes, Life.committed,
   Life.resolvedSigned_restart, Life.res_restart, Life.committed_restart, Life.removedRes_restart, Life.not_committed,
   Life.restart_eq_absent, Life.restart_eq_adding, Life.restart_eq_locked, Life.restart_eq_removing,
-  Life.restart_eq_removed])
+  Life.restart_eq_removed, Option.isNone_iff_eq_none, Option.isSome_iff_exists])
 
 section
 variable {P Hsh : Type} [DecidableEq P] [DecidableEq Hsh] (H : P → Hsh) (hash : Hsh)
 
-/-- The inductive invariant tying Bob's hidden state (circuit, forwarding-package flags,
-mailboxes, history) to the wire-visible life cycles of the two htlcs. -/
+/-- The inductive invariant tying Bob's hidden state (forwarding-package bits, circuit, keystone,
+persisted commitments, mailboxes, history) to the wire-visible life cycles of the two htlcs. -/
 structure Inv (s : Pair P) : Prop where
   k_valid : ∀ p ∈ s.known, H p = hash
   mb_settle : ∀ p, s.mbResp = some (.settle p) → p ∈ s.known
   mb_fail : s.mbResp = some .fail →
-    s.down = .removed .fail ∨ (s.down = .absent ∧ s.circ = .closing ∧ s.mbAdd = false)
+    s.down = .removed .fail ∨ (s.down = .absent ∧ s.downDur = false ∧ s.mbAdd = false ∧ s.keystone = false)
+  mb_circ : s.mbResp ≠ none → s.circ = .closing ∧ (s.up = .locked ∨ s.upDur.isSome = true)
   mb_add : s.mbAdd = true →
-    s.circ = .halfOpen ∧ s.up = .locked ∧ s.fwdFilter = true ∧ s.down = .absent ∧ s.mbResp = none
-  circ_absent : s.circ = .absent → s.down = .absent ∧ s.mbAdd = false ∧ s.mbResp = none
-  circ_half : s.circ = .halfOpen → s.down = .absent ∨ s.down = .adding .sent
-  circ_open : s.circ = .opened → s.down.committed = true
-  circ_live : s.circ = .halfOpen ∨ s.circ = .opened ∨ s.circ = .closing →
-    s.up = .locked ∨ ∃ r, s.up = .removing r .sent
-  circ_deleted : s.circ = .deleted → s.up.resolvedSigned.isSome = true
-  down_sent : s.down = .adding .sent → s.circ = .halfOpen
-  down_live : s.down ≠ .absent → s.fwdFilter = true
-  dcomm : s.downCommitted = s.down.committed
-  signed_eq : s.signedUp = s.up.resolvedSigned.toList
-  acked_add : s.addAcked = true → s.up.resolvedSigned.isSome = true
-  resolved_circ : s.up.resolvedSigned.isSome = true → s.circ = .absent ∨ s.circ = .deleted
-  up_early : (s.up = .absent ∨ ∃ st, s.up = .adding st) →
-    s.circ = .absent ∧ s.fwdFilter = false ∧ s.addAcked = false ∧ s.sentUp = []
-  up_settle : ∀ p, s.up.res? = some (.settle p) → p ∈ s.known
-  up_fail : s.up.res? = some .fail → s.down = .absent ∨ s.down = .removed .fail
+    s.circ = .pending ∧ s.keystone = false ∧ s.up = .locked ∧ s.upDur = none ∧ s.down = .absent ∧
+    s.downDur = false ∧ s.mbResp = none
+  circ_absent : s.circ = .absent →
+    s.down = .absent ∧ s.downDur = false ∧ s.mbAdd = false ∧ s.mbResp = none ∧ s.keystone = false ∧
+    s.delPending = false ∧ s.resp = none ∧ (s.fwdFilter = true → s.upDur = none ∧ s.up.res? = none)
+  nofwd : s.fwdFilter = false → s.circ = .absent
+  nokey : s.keystone = false → (s.down = .absent ∨ s.down = .adding .sent) ∧ s.downDur = false
+  ddur : s.down.committed = true → s.downDur = true
+  circ_pending : s.circ = .pending → s.up = .locked ∨ s.upDur.isSome = true
+  circ_live : s.circ = .pending ∨ s.circ = .closing →
+    (s.up = .locked ∨ ∃ r, s.up = .removing r .sent) ∧ (s.upDur = none ∨ s.delPending = true)
+  del_p : s.delPending = true → s.upDur.isSome = true ∧ (s.circ = .pending ∨ s.circ = .closing)
+  circ_deleted : s.circ = .deleted → s.upDur.isSome = true ∧ s.addAcked = true
+  up_sent : ∀ r, s.up = .removing r .sent → s.upDur = none ∨ s.upDur = some r
+  up_signed : ∀ r, s.up.resolvedSigned = some r → s.upDur = some r ∧ s.delPending = false
+  udur : ∀ r, s.upDur = some r → s.up = .locked ∨ s.up.res? = some r
+  dur_acked : s.upDur.isSome = true → s.addAcked = true
+  acked_add : s.addAcked = true → s.upDur.isSome = true
+  up_settle : ∀ p, s.up.res? = some (.settle p) ∨ s.upDur = some (.settle p) → p ∈ s.known
+  up_fail : s.up.res? = some .fail ∨ s.upDur = some .fail →
+    (s.down = .absent ∧ s.downDur = false ∧ s.mbAdd = false) ∨ s.down = .removed .fail
+  dec : s.decided = false → s.fwdFilter = false ∧ s.upDur = none ∧ s.up.res? = none ∧ s.sentUp = []
+  decided_up : s.decided = true → s.up = .locked ∨ s.up.res? ≠ none
   known_down : s.known ≠ [] →
     s.down = .locked ∨ (∃ r st, s.down = .removing r st) ∨ ∃ r, s.down = .removed r
   down_fail : s.down.res? = some .fail → s.known = [] ∨ s.envBad = true
@@ -127,10 +134,14 @@ structure Inv (s : Pair P) : Prop where
   down_settle_valid : ∀ p st, s.down = .removing (.settle p) st →
     p ∈ s.known ∨ (H p ≠ hash ∧ (st = .sent ∨ st = .signed))
   down_removed_settle : ∀ p, s.down = .removed (.settle p) → p ∈ s.known
-  resp_acked : s.respAcked = true → s.up.resolvedSigned.isSome = true
+  resp_acked : s.respAcked = true → s.upDur.isSome = true
   sent_settle : ∀ p, Res.settle p ∈ s.sentUp → p ∈ s.known
-  mb_resp_circ : s.mbResp ≠ none → s.circ = .closing
-  up_rem_sent : ∀ r, s.up = .removing r .sent → s.circ = .absent ∨ s.circ = .closing
+  closing_key : s.circ = .closing → s.keystone = true ∨ (s.down = .absent ∧ s.downDur = false)
+  resend_add : s.downDur = true → s.down = .absent → s.up = .locked ∧ s.upDur = none ∧ s.mbResp = none
+  down_early : (∃ st, s.down = .adding st) → s.up = .locked ∧ s.upDur = none ∧ s.mbResp = none
+  circ_ref : s.circ ≠ .absent → s.circRef.isSome = true
+  mb_ref : s.mbResp ≠ none → s.respRef.isSome = true
+  resp_ref : ∀ r, s.up = .removing r .sent → s.upDur = none → s.respRef.isSome = true
 
 theorem Inv.init : Inv H hash ({} : Pair P) := by
   constructor <;> simp [Life.resolvedSigned, Life.res?, Life.removedRes, Life.committed]
